@@ -60,8 +60,10 @@ class EngineCheck:
         return driver.run_replay(self.pid, self._engine(), path, quiet)
 
 
-PROP_RULE = ("one evaluation = one simulated execution of Mesh.write for (generated lattice assembly with chops, configuration = add order + "
-             "corner renumbering per block, schedule = ranking of every neighbour/coincident set). distinct_nontrivial counts distinct "
+PROP_RULE = ("one evaluation = one simulated execution of a generated script (lattice / path / pie-of-sectors / shape assembly with chops; "
+             "assemble, write, optionally a write that is tried and retried, a second write as it is / by a second Mesh object / after vertex "
+             "moves, a third one after the vertices were put back) under (configuration = add order + "
+             "corner renumbering per block, schedule = ranking of every neighbour/coincident set and of every identity-hashed object). distinct_nontrivial counts distinct "
              "(assembly digest, configuration, event-log digest) triples among executions in which the propagation step met a choice "
              "(>=2 defined candidate neighbours, or a scheduler decision on an order-sensitive set), as counted by probes.")
 
@@ -78,15 +80,16 @@ CHECKS: Dict[str, Any] = {
         "reference edge lengths: chord, three-point arc, polyline sum", "the blockMeshDict reader is correct"]),
     "C05": EngineCheck("C05", "vertices_check", "exploration",
         "one evaluation = one simulated assembly+write of (generated operations with exactly / nearly coincident and detached corners, patches, "
-        "merged pairs; configuration = order of mesh.add and merge_patches; schedule = simulated string-hash order of every per-corner "
+        "merged pairs, operations turned over or mirrored before or between two assemblies (same Mesh cleared, or a second Mesh object); "
+        "configuration = order of mesh.add and merge_patches; schedule = simulated string-hash order of every per-corner "
         "patch-name set). distinct_nontrivial counts distinct (model digest, configuration, event-log digest) among executions whose "
         "reference partition has at least one vertex shared between corners.",
         ["corner clusters in the workload are unambiguous: coincident within 2e-8, distinct >= 1e-5 (never within a decade of TOL=1e-7)",
          "the reference key (position cluster, slave patches touching that corner of that operation) is the intended rule",
          "the blockMeshDict reader is correct"], ["norders", "k"]),
     "C12": EngineCheck("C12", "lifecycle_check", "fault_enumeration",
-        "one evaluation = one simulated history over {add, delete, assemble, move vertices, backport, clear, modify_patch, set_default_patch, "
-        "merge_patches, write} with injected faults as first-class steps (SimCrash at the k-th internal step of assemble followed by clear; "
+        "one evaluation = one simulated history over {add, delete, assemble, move vertices (of operations and of a shape's centre / radius point), "
+        "backport, clear, modify_patch, set_default_patch, merge_patches, write, write of the same entities through a second Mesh object} with injected faults as first-class steps (SimCrash at the k-th internal step of assemble followed by clear; "
         "open/write/close errors of write followed by a retry; a write that fails in grading followed by chop+clear+write). quick: fault points "
         "sampled; thorough: for every sampled history, every internal step of its first assembly and open / each of the 9 write calls / close of "
         "its first write are enumerated. distinct_nontrivial counts distinct (history shape, event-log digest) among executions with at least "
@@ -98,7 +101,7 @@ CHECKS: Dict[str, Any] = {
         ["faults"]),
     "C13": EngineCheck("C13", "optimizer_check", "exploration",
         "one evaluation = one simulated optimize() of a jittered box assembly or mapped sketch with a random subset of clamps (free, line with "
-        "bounds, curve on line/circle/interpolated curve, radial, plane, parametric surface) created on their manifolds, 0-2 links, one of the "
+        "bounds, curve on line/circle/interpolated curve, radial, plane, parametric surface) created on their manifolds, 0-2 links (sometimes preceded by a refused one), one of the "
         "four methods, 1-3 iterations, under a per-call solver fault plan (real / stall / wander / wander-after-real / degenerate-cell abort), "
         "seeded or biased np.random, a clock plan and scheduler-owned order of Junction.cells. distinct_nontrivial counts distinct (scenario "
         "digest, event-log digest) among runs that executed at least one optimize_clamp step.",
@@ -114,7 +117,8 @@ CHECKS: Dict[str, Any] = {
         "one evaluation = one simulated write(path, debug_path) of a generated user script (1-4 jittered lofts with rotated corner numbering, "
         "optionally a box / extrude / revolve and a shape: cylinder, frustum, ring, hemisphere, copied hemisphere, cylinder+chained hemisphere; "
         "patches on any sides incl. lists and duplicates, cell zones, side / corner / edge projections with user geometry, merged pairs, default "
-        "patch, modify_patch, settings, a deletion) under an address layout for id() (sequential / shuffled) and a simulated hash order of "
+        "patch, modify_patch, settings, a deletion, an early assembly or write followed by edits / a turned-over operation and clear or backport, "
+        "a final write by a second Mesh object) under an address layout for id() (sequential / shuffled) and a simulated hash order of "
         "patch-name sets; the bytes captured at the file-system seam are parsed by an independent reader and compared with a reference renderer. "
         "distinct_nontrivial counts distinct (program digest, event-log digest) among executions whose program declares at least one patch side "
         "or projected side.",
